@@ -53,3 +53,11 @@ Print Assumptions C11_wrap_refuted_pinned.
 Theorem C11_state_survives_restarts : state_created_only_for_new_stubs = true.
 Proof. reflexivity. Qed.
 Print Assumptions C11_state_survives_restarts.
+
+(** once the stage has closed its stub the writer's copy ends and the receiver's socket is closed by
+    the very next statement - before the writer deregisters the link and the connection, which
+    needs locks that other requests may hold for seconds (regenerated from ToxicLink.write: the
+    close is a plain statement between the copy and RemoveLink / RemoveConnection, none deferred) *)
+Theorem C11_close_is_not_held_back : writer_closes_before_deregistering = true.
+Proof. reflexivity. Qed.
+Print Assumptions C11_close_is_not_held_back.
